@@ -16,7 +16,8 @@ from ..simdisk import SimDisk, SimKill, norm, LISTDIR
 PROPS = ("C19", "C20")
 
 SIMFILE_NAMES = ["song.sm", "song.ssc", "Song.SM", "x.Ssc", "a b.sm", "other.ssc", "z.sM",
-                 "second.sm", "SECOND.SSC"]
+                 "second.sm", "SECOND.SSC", "._song.ssc", "._x.sm", ".hidden.sm", "~song.ssc", "#1.sm",
+                 "song .ssc", "Thumbs.db.sm"]
 NEAR_MISS = ["x.sm.old", "x.ssca", "sm", "ssc", "x.smx", "song.sm~", "xsm", "x.ssc.bak", "notes.txt",
              "x.s", "a.sm.txt", "notes.\u017fm", "draft.\u00dfc", "DRAFT.\u00dfC", "todo.sm\n",
              "Backup.SSC\n", "x.sm ", "x.\u0455m", "SM", ".sm.", "x.ssc\r"]
@@ -24,8 +25,10 @@ IMAGES = ["banner.png", "songbn.JPG", "bn.png", "xbg.png", "background.jpeg", "c
           "jk_x.png", "jacket.bmp", "albumart.bmp", "x-cd.png", "x disc.png", "x title.png",
           "Banner.PNG", "mybanner2.png", "bnx.png", "bgm.png", "cd.png", "xjk_.png", "disc.png",
           "ALBUMART.JPG", "x-CD.gif", "BG.PNG", "cdtitle", "jk_banner.png", "AlbumArt-CD.jpg",
-          "cdtitle-bg.gif", "banner-bg.png", "jacket-cd.png", "jk_bn.png"]
-AUDIO = ["x.ogg", "x.MP3", "song.wav", "a.oga", "x.ogg.bak", "mp3", "x.flac", "X.OGG"]
+          "cdtitle-bg.gif", "banner-bg.png", "jacket-cd.png", "jk_bn.png", "..banner", "...bn", "..bg",
+          "..-cd", ".banner", "cover.png ", "bn.png\t", "my banner.png ", "._banner.png"]
+AUDIO = ["x.ogg", "x.MP3", "song.wav", "a.oga", "x.ogg.bak", "mp3", "x.flac", "X.OGG", "song.ogg ",
+         "..ogg", "._x.ogg"]
 OTHER = ["readme.txt", "notes", "thumbs.db", "x.lrc", "video.avi"]
 SUBDIRS = ["sub", "Images", "extra"]
 IMAGE_EXT = [".png", ".jpg", ".jpeg", ".gif", ".bmp"]
@@ -364,11 +367,11 @@ def check_c19(sc, res):
                 raise LibraryMisbehaved("path-is-not-a-string", got=repr(p))
             return norm(fa.unroot(fa.normpath(p)))
 
-        def judge_loaded(label, got_outcome, d, chosen_entry):
+        def judge_loaded(label, got_outcome, d, chosen_entry, options=None):
             """got_outcome: ('ok', simfile) | ('exc', name).  Compare with the reference
             load of the chosen file."""
             path = d + "/" + chosen_entry
-            exp = expected_load(tree.files[path], chosen_entry, cfg, facade)
+            exp = expected_load(tree.files[path], chosen_entry, options or cfg, facade)
             if isinstance(exp, LoadError):
                 if got_outcome[0] != "exc" or got_outcome[1] != exp.exc:
                     res.violate(P, "load-outcome-differs", via=label, dir=d, file=chosen_entry,
@@ -386,7 +389,7 @@ def check_c19(sc, res):
             ok_loaded = _same_loaded(sf, exp, lib)
             if not ok_loaded and facade in NATIVE_LIKE and b"\r" in tree.files[path]:
                 # line breaks translated by text mode or kept as stored: both accepted
-                exp_raw = expected_load(tree.files[path], chosen_entry, cfg, "as-stored")
+                exp_raw = expected_load(tree.files[path], chosen_entry, options or cfg, "as-stored")
                 ok_loaded = not isinstance(exp_raw, LoadError) and _same_loaded(sf, exp_raw, lib)
             if type(sf) is not want_cls or not ok_loaded:
                 res.violate(P, "loaded-simfile-differs", via=label, dir=d, file=chosen_entry,
@@ -487,6 +490,24 @@ def check_c19(sc, res):
                 return
             if want_ssc and want_sm:
                 res.stats["probe:ssc-preferred-over-sm"] += 1
+            # the same directory object opened twice with no options at all; what the first call
+            # handed out is edited in between: the second call must give the stored simfile again
+            exp_default = expected_load(tree.files[d + "/" + chosen], chosen,
+                                        {"strict": True, "encoding": None}, facade)
+            if not isinstance(exp_default, LoadError):
+                oc1 = _outcome_of_open(lambda: sd.open())
+                if oc1[0] == "ok":
+                    try:
+                        oc1[1]["TITLE"] = "edited by the caller"
+                        oc1[1]["ZZ"] = "1"
+                    except Exception:
+                        pass
+                oc2 = _outcome_of_open(lambda: sd.open())
+                res.evaluations += 1
+                if not judge_loaded("SimfileDirectory.open() twice", oc2, d, chosen,
+                                    {"strict": True, "encoding": None}):
+                    return
+                res.stats["probe:opened-twice-without-options"] += 1
             # a storage error at the j-th call of open(): it may fail, it must never answer
             # with another simfile (every fault point of this open is enumerated)
             if cfg.get("open_faults") and isinstance(disk, SimDisk):
